@@ -177,6 +177,10 @@ def evaluate(term, env: Env, memo=None):
     Works on the raw C API (no Python wrapper objects per node) for speed."""
     if memo is None:
         memo = {}
+    else:
+        # memo is keyed by AST id: keep every evaluated root alive as long as the memo lives, so
+        # that ids of temporaries cannot be recycled for different terms
+        memo.setdefault("__keep__", []).append(term)
     ctx = term.ctx.ref()
     root = term.as_ast()
     get_id = _zc.Z3_get_ast_id
